@@ -301,7 +301,8 @@ class Tap:
             # the fields the object has *now*: a broadcast task reads the object at each of its steps (D27)
             tap.tags[id(out)] = ("bcast", id(info), ttl, broadcast_addresses, c08_fields(info))
             # which packet object this is: since the D27 repair one unregister call builds one goodbye packet and sends it three times
-            tap.ev.append(("gbgen", sim.now(), id(self_), id(out), id(info), ttl))
+            # (the name too: since the R3-C03-a repair the goodbye is built from the REGISTERED object, which need not be the one the call was handed)
+            tap.ev.append(("gbgen", sim.now(), id(self_), id(out), id(info), ttl, str(getattr(info, "name", ""))))
             return out
 
         def gall(self_):
@@ -603,6 +604,7 @@ def trace_ops(obs):
     zc, rid = obs["zc"], obs["registry_id"]
     oids = {}
     known = {}  # object id -> the fields the model believes the object has
+    registered = {}  # lower-cased instance name -> id of the ServiceInfo the registry holds under it
 
     def oid(i):
         return oids.setdefault(i, len(oids) + 1)
@@ -633,14 +635,19 @@ def trace_ops(obs):
             ops.append(("flush %d" % t, "ok", t))
             ops.append(("reg %d %d %s" % (oid(e[3]), t, svc_tokens(e[4])), "-", t))
             known[e[3]] = e[4]
+            registered[e[4]["name"].lower()] = e[3]
         elif k == "upd":
             ops.append(("flush %d" % t, "ok", t))
             ops.append(("upd %d %d %s" % (oid(e[3]), t, svc_tokens(e[4])), "-", t))
             known[e[3]] = e[4]
+            registered[e[4]["name"].lower()] = e[3]
         elif k == "unreg":
+            # R3-C03-a (repaired b99f12a): async_unregister_service works on the object REGISTERED under the name, whatever object
+            # it is handed; the model's `unreg` names the object whose records are withdrawn and whose goodbye task runs
+            tgt = registered.pop(e[4]["name"].lower(), e[3])
             ops.append(("flush %d" % t, "ok", t))
-            ops.append(("unreg %d %d %s" % (oid(e[3]), t, svc_tokens(e[4])), "-", t))
-            known[e[3]] = e[4]
+            ops.append(("unreg %d %d %s" % (oid(tgt), t, svc_tokens(known.get(tgt, e[4]))), "-", t))
+            known.setdefault(tgt, e[4])
         elif k == "close":
             ops.append(("flush %d" % t, "ok", t))
             if e[3] and not close_announced:
@@ -651,6 +658,7 @@ def trace_ops(obs):
             # the coroutine returned before its third broadcast: it stopped silently (the info is no longer the registered one)
             ops.append(("stop %d %s %s %d" % (oid(e[3]), "-" if e[4] is None else str(e[4]), C.b01(e[5]), t), "ok", t))
         elif k == "allgen":
+            registered.clear()  # generate_unregister_all_services empties the registry
             if e[5] and not close_announced:
                 ops.append(("flush %d" % t, "ok", t))
                 ops.append(closecall())
@@ -854,7 +862,8 @@ def oracle(sc, obs, res, case):
             mine = None
             for j in range(i + 1, n):
                 x = ev[j]
-                if x[0] == "gbgen" and x[4] == e[3] and x[5] == 0 and x[1] == t and ("gb", x[3]) not in used_gb:
+                if x[0] == "gbgen" and (x[4] == e[3] or (len(x) > 6 and x[6].lower() == f["name"].lower())) and x[5] == 0 and x[1] == t \
+                        and ("gb", x[3]) not in used_gb:
                     mine = x[3]
                     used_gb.add(("gb", x[3]))
                     break
@@ -871,7 +880,8 @@ def oracle(sc, obs, res, case):
                 cands = []
                 for j in range(i + 1, n):
                     x = ev[j]
-                    if x[0] == "asend" and x[3][0] == "bcast" and x[3][1] == e[3] and x[3][2] == 0 and j not in used_gb:
+                    if x[0] == "asend" and x[3][0] == "bcast" and (x[3][1] == e[3] or x[3][4]["name"].lower() == f["name"].lower()) \
+                            and x[3][2] == 0 and j not in used_gb:
                         per, last = sends_of(j)
                         got = {ident(r) for dgs in per.values() for data, _ in dgs for r in all_recs(data)}
                         cands.append(((got != want, abs(x[1] - (t + kth * GOODBYE)), j), j, x, per, last))
